@@ -36,6 +36,7 @@ func init() {
 		Rule: "case = a batch of messages. Cached-output message = a PRNG map block id -> Item(block number at varint boundaries 2^(7k)-1, 2^(7k), 2^64-1; id; nil/zero/negative/boundary timestamp; cursor; nil/empty/varint-boundary-length payload), 0..5000 items, keyed by Item.BlockId as storage/execout/file.go does: " +
 			"Map.MarshalFast -> proto.Unmarshal(Array) == items; proto.Marshal(Array) and Array.MarshalVT -> Map.UnmarshalFast == map; MarshalFast -> UnmarshalFast == map. " +
 			"Store content = PRNG kv (0..5000 entries, nil/empty/large values) + deleted prefixes: every marshaller (Default, VTproto, Proto, ProtoingFast, Binary without prefixes) reads back what it wrote; ProtoingFast/VTproto bytes decode with proto.Unmarshal(StoreData) and Proto bytes with VTproto; the size reported by the default marshaller (and VTproto) == sum(len k+len v). " +
+			"File part (plain mode): a cached-output file through the real execout.File Save/ReadFile with a first upload attempt that fails, and a store snapshot through the real Save/Load whose FIRST download is cut (on an entry boundary or anywhere) and whose retry succeeds: content as written and SizeBytes() at load == sum(len k+len v). " +
 			"Families alternate: valid UTF-8 strings (all directions demanded) and arbitrary bytes (only what the schema-free codecs VTproto/Binary/default promise is demanded; everything else is counted as obs_*). A few free-form maps (key != BlockId) are run and only counted. " +
 			"non-trivial = message with >=2 items of which one has a timestamp and one a multi-byte varint, or store content with >=2 entries and >=1 prefix; distinct by content hash",
 		Assumptions: []string{
